@@ -9,7 +9,7 @@ open Lean (Json)
 
 /-- driver state (the session model lives here later) -/
 structure DState where
-  dummy : Unit := ()
+  sess : Option Sess := none
 
 def dispatch (st : DState) (j : Json) : Except String (DState × Json) := do
   let op ← getStr j "op"
@@ -60,6 +60,22 @@ def dispatch (st : DState) (j : Json) : Except String (DState × Json) := do
                 | none => raise)
   | "rr.construct" => do
       pure (st, optHex (constructRouteRefresh (← getNat j "type") (← getNat j "afi") (← getNat j "res") (← getNat j "safi")))
+  | "sess.reset" => do
+      let cfg ← readCfg (← j.getObjVal? "cfg")
+      pure ({ st with sess := some (boot cfg) }, obj [("ok", Json.bool true)])
+  | "sess.enabled" => do
+      match st.sess with
+      | none => throw "no session"
+      | some s => pure (st, obj [("enabled", Json.bool (enabled s (← readEv (← j.getObjVal? "ev"))))])
+  | "sess.ev" => do
+      match st.sess with
+      | none => throw "no session"
+      | some s =>
+        let ev ← readEv (← j.getObjVal? "ev")
+        if enabled s ev then
+          let s' := step updClassOf s ev
+          pure ({ st with sess := some s' }, obsJson s')
+        else pure (st, obj [("disabled", Json.bool true)])
   | "spec.refopen" => do pure (st, ← specRefOpen j)
   | _ => throw s!"unknown op {op}"
 
